@@ -48,7 +48,7 @@ Qed.
 
 (* for i := 0; i < af.StuffingLength; i++ { b.Write(uint8(0xff)); bytesWritten++ } *)
 Lemma af_loop_is n : forall af bw i len e,
-  writePacketAdaptationField_loop1 n af bw i len e =
+  writePacketAdaptationField_loop1 n af bw e len i =
   (repeat (WBatch, WBits 8 (255 mod 256)) n, WVal (bw + Z.of_nat n, i + Z.of_nat n)).
 Proof.
   induction n as [|n IH]; intros.
@@ -68,13 +68,13 @@ Proof.
 Qed.
 
 Lemma packet_loop_is n : forall av n0 p t w,
-  writePacket_loop1 n av n0 p ENil t w =
-  (repeat (WDirect, WBits 8 (255 mod 256)) n, WVal (ENil, w + Z.of_nat n)).
+  writePacket_loop1 n p t w ENil av n0 =
+  (repeat (WDirect, WBits 8 (255 mod 256)) n, WVal (w + Z.of_nat n, ENil)).
 Proof.
   induction n as [|n IH]; intros.
   - cbn [writePacket_loop1 wret repeat Z.of_nat]. rewrite Z.add_0_r. reflexivity.
   - cbn [writePacket_loop1]. wsimpl. rewrite IH. cbn [repeat].
-    apply f_equal2; [reflexivity|]. apply f_equal. apply f_equal2; [reflexivity|lia].
+    apply f_equal2; [reflexivity|]. apply f_equal. apply f_equal2; [lia|reflexivity].
 Qed.
 
 Definition enc_packet_n (p : Packet) (target : Z) : res (list witem * Z) :=
